@@ -149,6 +149,16 @@ func c12Gen(c *engine.C) engine.Case {
 		}
 		files = append(files, FileSpec{Path: "src/" + prefix + cls.Name + ".java", Content: jg.Print(cls, layout)})
 	}
+	// a non-controller type that carries a type-level mapping, scanned before / after the controllers: contributes
+	// nothing and changes nothing
+	switch engine.PickTag(c, "mapped-non-controller-type", "none", "interface-scanned-first", "annotation-type-scanned-first", "interface-scanned-last") {
+	case "interface-scanned-first":
+		files = append(files, FileSpec{Path: "src/a0_AccountApi.java", Content: "package web;\n\nimport org.springframework.web.bind.annotation.*;\n\n@RequestMapping(\"/accounts\")\npublic interface AccountApi {\n    @GetMapping(\"/{id}\")\n    String get(String id);\n}\n"})
+	case "annotation-type-scanned-first":
+		files = append(files, FileSpec{Path: "src/a0_Routes.java", Content: "package web;\n\nimport org.springframework.web.bind.annotation.*;\n\n@RequestMapping(\"/routes\")\npublic @interface Routes {\n    String value();\n}\n"})
+	case "interface-scanned-last":
+		files = append(files, FileSpec{Path: "src/z9_AccountApi.java", Content: "package web;\n\nimport org.springframework.web.bind.annotation.*;\n\n@RequestMapping(\"/accounts\")\npublic interface AccountApi {\n    @GetMapping(\"/{id}\")\n    String get(String id);\n}\n"})
+	}
 	prefixSel := c.Choose(3, "aggregate-prefix")
 	return func() engine.Result { return c12Check(files, exp, prefixSel) }
 }
